@@ -137,6 +137,19 @@ def run_scenario(run: Run, scen: dict, rng: random.Random):
                         mv = m.eval(theta, rows)
                         mag = m.magnitude(theta, rows)
                         run.evaluations += 1
+
+                        def too_big(v):
+                            try:
+                                f = float(v[0] if isinstance(v, (list, tuple)) else v)
+                            except OverflowError:
+                                return True
+                            return not np.isfinite(f) or abs(f) > 1e250
+
+                        if any(too_big(v) for row in (mag if mag is not None else mv) for out in row for v in out) or \
+                                any(too_big(v) for th in theta.values() for v in th):
+                            # the optimiser has driven the parameters out of the floating-point range: the history ends
+                            run.feature("history_diverged", True)
+                            return
                         try:
                             ne, nt = common.compare(y, mv, mag, m.mode, tol=1e-8)
                             run.exact += ne; run.tolerance += nt
